@@ -73,7 +73,16 @@ def run(out, rng, tier, args):
                 b_ = cb.solve(method, tstar, 0.0, threads, params, draws)
                 cb.named(b_)
                 cb.eq(a, b_)
-                pairs.append((r, tstar, len(cb.ops) - 5))
+                pairs.append((r, tstar, len(cb.ops) - 5, n))
+                if tstar < n and r == r and rng.random() < 0.35:
+                    # "no limit": the documented way to run until the threshold is reached (u64::MAX)
+                    big = 2 ** 64 - 1 - rng.choice([0, 0, 1])
+                    a2 = cb.solve(method, big, r, threads, params, draws)
+                    cb.named(a2)
+                    b2 = cb.solve(method, tstar, 0.0, threads, params, draws)
+                    cb.named(b2)
+                    cb.eq(a2, b2)
+                    pairs.append((r, tstar, len(cb.ops) - 5, big))
             cb.meta["pairs"] = pairs
             cases.append(cb)
             cid += 1
@@ -90,8 +99,7 @@ def monitor(cb, impl):
     if "ops" not in impl:
         return hits
     ops = impl["ops"]
-    n = cb.meta["N"]
-    for r, tstar, k in cb.meta["pairs"]:
+    for r, tstar, k, n in cb.meta["pairs"]:
         a, na, b_, nb, eq = ops[k:k + 5]
         if any("panic" in o for o in (a, na, b_, nb)):
             hits.append(("panic: %r" % [o for o in (a, na, b_, nb) if "panic" in o][:1], "panic"))
@@ -127,12 +135,14 @@ def _named_close(na, nb):
 
 
 def nontrivial(cb, impl):
-    return any(1 < ts < cb.meta["N"] for _, ts, _ in cb.meta["pairs"])
+    return any(1 < ts < cb.meta["N"] for _, ts, _, _ in cb.meta["pairs"])
 
 
 def classify(cb, impl):
     out = ["near_threshold_cases" if cb.meta["near"] else "far_threshold_cases", "method_" + cb.meta["config"][0],
            "threads_%d" % cb.meta["threads"]]
-    for r, ts, _ in cb.meta["pairs"]:
+    for r, ts, _, nb in cb.meta["pairs"]:
         out.append("stop_at_1" if ts == 1 else "stop_never" if ts == cb.meta["N"] else "stop_inside")
+        if nb > 2 ** 63:
+            out.append("unbounded_budget_runs")
     return out
